@@ -1694,9 +1694,47 @@ class Engine:
             f._loop_count = k
         return f.qualname, ords.get(id(node))
 
+    def spec_for_loop(self, qual, k):
+        """The loop contract for loop k of function qual.  A contract names its loop as (function, ordinal); when that function
+        no longer HAS a loop with that ordinal but calls - directly or not - a function with a loop that has no contract of
+        its own, the loop was moved into a helper (extract-method) and the contract follows it.  Its invariant is then proved
+        for the loop where it now lives, exactly as before; the contract finds its loop context under the old key."""
+        spec = self.loop_specs.get((qual, k))
+        if spec is not None:
+            return spec, (qual, k)
+        for (F, kk), sp in self.loop_specs.items():
+            owners = [f for f in self.current_func[:-1] if f.qualname == F]
+            if F == qual or not owners:
+                continue
+            if getattr(owners[0], '_loop_count', None) is None:
+                self._count_loops(owners[0])
+            if owners[0]._loop_count > kk:
+                continue                     # the loop the contract names is still where the contract says
+            if getattr(sp, '_moved_to', (qual, k)) != (qual, k):
+                continue
+            sp._moved_to = (qual, k)
+            return sp, (F, kk)
+        return None, (qual, k)
+
+    def _count_loops(self, f):
+        n = 0
+        if not isinstance(f.node, ast.Lambda):
+            def walk(x):
+                nonlocal n
+                if isinstance(x, (ast.While, ast.For, ast.AsyncFor)):
+                    n += 1
+                for c in ast.iter_child_nodes(x):
+                    if not isinstance(c, (ast.FunctionDef, ast.AsyncFunctionDef, ast.Lambda, ast.ClassDef)):
+                        walk(c)
+            for x in f.node.body:
+                walk(x)
+        if getattr(f, '_loop_count', None) is None:
+            f._loop_count = n
+        return n
+
     def s_While(self, node, env):
         qual, k = self.loop_key(node, env)
-        spec = self.loop_specs.get((qual, k))
+        spec, gkey = self.spec_for_loop(qual, k)
         if spec is None:
             n = 0
             while True:
@@ -1715,9 +1753,9 @@ class Engine:
                     continue
         self.cut_loop(node, env, spec, qual, k,
                       test=lambda: self.decide(self.eval(node.test, env), self.site(node)),
-                      pre_body=lambda: None)
+                      pre_body=lambda: None, ghost_key=gkey)
 
-    def cut_loop(self, node, env, spec, qual, k, test, pre_body):
+    def cut_loop(self, node, env, spec, qual, k, test, pre_body, ghost_key=None):
         tag = '%s#loop%d' % (qual, k)
         entry = self.snapshot(env)
         lghost = {}
@@ -1733,6 +1771,8 @@ class Engine:
         ctx = LoopCtx(self, env, kk, entry, 'head', node=node)
         ctx.ghost = lghost
         self.path.ghost.setdefault('loops', {})[(qual, k)] = ctx
+        if ghost_key is not None:
+            self.path.ghost['loops'][ghost_key] = ctx
         for name, e in spec.invariant(ctx):
             self.assume(e)
         if mode == 0:
